@@ -32,3 +32,241 @@ Theorem decimal_trans :
     decimal_strcmp a c = Some o.
 Proof. exact decimal_trans_proof. Qed.
 Print Assumptions decimal_trans.
+
+(* ======================= realnum_strcmp ======================= *)
+From Coq Require Import QArith.
+From ZV.C20 Require Import ModelStr Cases ProofsReal ProofsRealTop ProofsStr ProofsLines ProofsLex.
+Open Scope N_scope.
+
+(* realnum_strcmp orders exactly by the denoted rational (integer part + fraction / 10^|fraction|, signed;
+   leading and trailing zeros, "-0.0" = "0", "5." = "5" = "5.0") and is None exactly on invalid input *)
+Theorem realnum_strcmp_correct :
+  forall a b,
+    realnum_strcmp a b =
+    match real_value a, real_value b with
+    | Some x, Some y => Some (Qcompare x y)
+    | _, _ => None
+    end.
+Proof. exact realnum_strcmp_correct_proof. Qed.
+Check realnum_strcmp_correct :
+  forall a b,
+    realnum_strcmp a b =
+    match real_value a, real_value b with
+    | Some x, Some y => Some (Qcompare x y)
+    | _, _ => None
+    end.
+Print Assumptions realnum_strcmp_correct.
+
+Theorem realnum_antisym :
+  forall a b c, realnum_strcmp a b = Some c -> realnum_strcmp b a = Some (CompOpp c).
+Proof. exact realnum_antisym_proof. Qed.
+Check realnum_antisym :
+  forall a b c, realnum_strcmp a b = Some c -> realnum_strcmp b a = Some (CompOpp c).
+Print Assumptions realnum_antisym.
+
+Theorem realnum_trans :
+  forall a b c o, realnum_strcmp a b = Some o -> realnum_strcmp b c = Some o ->
+    realnum_strcmp a c = Some o.
+Proof. exact realnum_trans_proof. Qed.
+Check realnum_trans :
+  forall a b c o, realnum_strcmp a b = Some o -> realnum_strcmp b c = Some o ->
+    realnum_strcmp a c = Some o.
+Print Assumptions realnum_trans.
+
+Theorem realnum_le_trans :
+  forall a b c o1 o2,
+    realnum_strcmp a b = Some o1 -> realnum_strcmp b c = Some o2 -> o1 <> Gt -> o2 <> Gt ->
+    exists o3, realnum_strcmp a c = Some o3 /\ o3 <> Gt /\ (o3 = Eq -> o1 = Eq /\ o2 = Eq).
+Proof. exact realnum_le_trans_proof. Qed.
+Check realnum_le_trans :
+  forall a b c o1 o2,
+    realnum_strcmp a b = Some o1 -> realnum_strcmp b c = Some o2 -> o1 <> Gt -> o2 <> Gt ->
+    exists o3, realnum_strcmp a c = Some o3 /\ o3 <> Gt /\ (o3 = Eq -> o1 = Eq /\ o2 = Eq).
+Print Assumptions realnum_le_trans.
+
+(* ======================= join ======================= *)
+Theorem join_is_intercalate :
+  forall sep parts, join sep parts = intercalate sep parts.
+Proof. exact join_is_intercalate_proof. Qed.
+Check join_is_intercalate : forall sep parts, join sep parts = intercalate sep parts.
+Print Assumptions join_is_intercalate.
+
+Theorem join_iter_is_intercalate :
+  forall sep items, join_iter sep items = intercalate sep items.
+Proof. exact join_iter_is_intercalate_proof. Qed.
+Check join_iter_is_intercalate : forall sep items, join_iter sep items = intercalate sep items.
+Print Assumptions join_iter_is_intercalate.
+
+(* the precomputed capacity is exactly the length of the result *)
+Theorem join_length :
+  forall sep parts, parts <> [] -> nlen (join sep parts) = join_capacity sep parts.
+Proof. exact join_length_proof. Qed.
+Check join_length : forall sep parts, parts <> [] -> nlen (join sep parts) = join_capacity sep parts.
+Print Assumptions join_length.
+
+(* ======================= split ======================= *)
+Theorem split_join :
+  forall d xs, xs <> [] -> Forall (fun x => contains_byte d x = false) xs ->
+    split_opt d (join [d] xs) = xs.
+Proof. exact split_join_proof. Qed.
+Check split_join :
+  forall d xs, xs <> [] -> Forall (fun x => contains_byte d x = false) xs ->
+    split_opt d (join [d] xs) = xs.
+Print Assumptions split_join.
+
+Theorem join_split :
+  forall d s, join [d] (split_opt d s) = s.
+Proof. exact join_split_proof. Qed.
+Check join_split : forall d s, join [d] (split_opt d s) = s.
+Print Assumptions join_split.
+
+Theorem split_fields_clean :
+  forall d s, Forall (fun x => contains_byte d x = false) (split_opt d s).
+Proof. exact split_fields_clean_proof. Qed.
+Check split_fields_clean : forall d s, Forall (fun x => contains_byte d x = false) (split_opt d s).
+Print Assumptions split_fields_clean.
+
+Theorem fs_split_spec :
+  forall d s, fs_split d s = drop_last_empty (split_opt d s).
+Proof. exact fs_split_spec_proof. Qed.
+Check fs_split_spec : forall d s, fs_split d s = drop_last_empty (split_opt d s).
+Print Assumptions fs_split_spec.
+
+Theorem fs_split_join :
+  forall d xs, xs <> [] -> Forall (fun x => contains_byte d x = false) xs ->
+    fs_split d (join [d] xs) = drop_last_empty xs.
+Proof. exact fs_split_join_proof. Qed.
+Check fs_split_join :
+  forall d xs, xs <> [] -> Forall (fun x => contains_byte d x = false) xs ->
+    fs_split d (join [d] xs) = drop_last_empty xs.
+Print Assumptions fs_split_join.
+
+(* ======================= lines ======================= *)
+Theorem lines_unlines :
+  forall ls tail,
+    Forall (fun p => contains_byte 10 (fst p) = false /\ ends_with_byte (fst p) 13 = false /\
+                     (snd p = [10] \/ snd p = [13; 10])) ls ->
+    contains_byte 10 tail = false ->
+    lines (unlines ls ++ tail) = map fst ls ++ (if null tail then [] else [tail]).
+Proof. exact lines_unlines_proof. Qed.
+Check lines_unlines :
+  forall ls tail,
+    Forall (fun p => contains_byte 10 (fst p) = false /\ ends_with_byte (fst p) 13 = false /\
+                     (snd p = [10] \/ snd p = [13; 10])) ls ->
+    contains_byte 10 tail = false ->
+    lines (unlines ls ++ tail) = map fst ls ++ (if null tail then [] else [tail]).
+Print Assumptions lines_unlines.
+
+(* ======================= words ======================= *)
+Theorem words_are_maximal_runs :
+  forall s, words s = words_spec s /\ word_count s = nlen (words_spec s).
+Proof. exact words_spec_proof. Qed.
+Check words_are_maximal_runs : forall s, words s = words_spec s /\ word_count s = nlen (words_spec s).
+Print Assumptions words_are_maximal_runs.
+
+(* ======================= ASCII case ======================= *)
+Theorem case_maps :
+  (forall c, is_upper_letter c = true -> upper (lower c) = c /\ lower c <> c) /\
+  (forall c, is_lower_letter c = true -> lower (upper c) = c /\ upper c <> c) /\
+  (forall c, is_upper_letter c = false -> lower c = c) /\
+  (forall c, is_lower_letter c = false -> upper c = c) /\
+  (forall c, lower (lower c) = lower c /\ upper (upper c) = upper c /\
+             upper (lower c) = upper c /\ lower (upper c) = lower c) /\
+  (forall c, c < 256 -> lower c < 256 /\ upper c < 256).
+Proof. exact case_maps_proof. Qed.
+Check case_maps :
+  (forall c, is_upper_letter c = true -> upper (lower c) = c /\ lower c <> c) /\
+  (forall c, is_lower_letter c = true -> lower (upper c) = c /\ upper c <> c) /\
+  (forall c, is_upper_letter c = false -> lower c = c) /\
+  (forall c, is_lower_letter c = false -> upper c = c) /\
+  (forall c, lower (lower c) = lower c /\ upper (upper c) = upper c /\
+             upper (lower c) = upper c /\ lower (upper c) = lower c) /\
+  (forall c, c < 256 -> lower c < 256 /\ upper c < 256).
+Print Assumptions case_maps.
+
+Theorem to_lower_bmi2_is_map :
+  forall s, bytes_ok s -> to_lower_bmi2 s = map lower s.
+Proof. exact to_lower_bmi2_is_map_proof. Qed.
+Check to_lower_bmi2_is_map : forall s, bytes_ok s -> to_lower_bmi2 s = map lower s.
+Print Assumptions to_lower_bmi2_is_map.
+
+Theorem to_upper_bmi2_is_map :
+  forall s, bytes_ok s -> to_upper_bmi2 s = map upper s.
+Proof. exact to_upper_bmi2_is_map_proof. Qed.
+Check to_upper_bmi2_is_map : forall s, bytes_ok s -> to_upper_bmi2 s = map upper s.
+Print Assumptions to_upper_bmi2_is_map.
+
+Theorem case_length :
+  forall s, bytes_ok s -> nlen (to_lower_bmi2 s) = nlen s /\ nlen (to_upper_bmi2 s) = nlen s.
+Proof. exact case_length_proof. Qed.
+Check case_length :
+  forall s, bytes_ok s -> nlen (to_lower_bmi2 s) = nlen s /\ nlen (to_upper_bmi2 s) = nlen s.
+Print Assumptions case_length.
+
+(* ======================= lexicographic iterator ======================= *)
+Theorem lex_seek_lower_bound_spec :
+  forall l t, sorted_strs l ->
+    let '(exact, pos) := li_seek_lower_bound l t in
+    let k := match pos with Some p => p | None => length l end in
+    (k <= length l)%nat /\ (pos = None <-> k = length l) /\
+    (forall i, (i < k)%nat -> lex (nth_str l i) t = Lt) /\
+    (forall i, (k <= i)%nat -> (i < length l)%nat -> lex (nth_str l i) t <> Lt) /\
+    (exact = true <-> (k < length l)%nat /\ nth_str l k = t) /\
+    (exact = false -> forall i, (k <= i)%nat -> (i < length l)%nat -> lex (nth_str l i) t = Gt).
+Proof. exact seek_lower_bound_spec. Qed.
+Check lex_seek_lower_bound_spec :
+  forall l t, sorted_strs l ->
+    let '(exact, pos) := li_seek_lower_bound l t in
+    let k := match pos with Some p => p | None => length l end in
+    (k <= length l)%nat /\ (pos = None <-> k = length l) /\
+    (forall i, (i < k)%nat -> lex (nth_str l i) t = Lt) /\
+    (forall i, (k <= i)%nat -> (i < length l)%nat -> lex (nth_str l i) t <> Lt) /\
+    (exact = true <-> (k < length l)%nat /\ nth_str l k = t) /\
+    (exact = false -> forall i, (k <= i)%nat -> (i < length l)%nat -> lex (nth_str l i) t = Gt).
+Print Assumptions lex_seek_lower_bound_spec.
+
+Theorem lex_seek_upper_bound_spec :
+  forall l t, sorted_strs l ->
+    let '(exact, pos) := li_seek_upper_bound l t in
+    let k := match pos with Some p => p | None => length l end in
+    exact = false /\ (k <= length l)%nat /\ (pos = None <-> k = length l) /\
+    (forall i, (i < k)%nat -> lex (nth_str l i) t <> Gt) /\
+    (forall i, (k <= i)%nat -> (i < length l)%nat -> lex (nth_str l i) t = Gt).
+Proof. exact seek_upper_bound_spec. Qed.
+Check lex_seek_upper_bound_spec :
+  forall l t, sorted_strs l ->
+    let '(exact, pos) := li_seek_upper_bound l t in
+    let k := match pos with Some p => p | None => length l end in
+    exact = false /\ (k <= length l)%nat /\ (pos = None <-> k = length l) /\
+    (forall i, (i < k)%nat -> lex (nth_str l i) t <> Gt) /\
+    (forall i, (k <= i)%nat -> (i < length l)%nat -> lex (nth_str l i) t = Gt).
+Print Assumptions lex_seek_upper_bound_spec.
+
+Theorem lex_enumerate_all :
+  forall l, li_walk (length l) l (snd (li_seek_start l)) = l /\ li_walk (length l) l (li_new l) = l.
+Proof. exact enumerate_all_proof. Qed.
+Check lex_enumerate_all :
+  forall l, li_walk (length l) l (snd (li_seek_start l)) = l /\ li_walk (length l) l (li_new l) = l.
+Print Assumptions lex_enumerate_all.
+
+Theorem lex_lower_bound_walk :
+  forall l t, sorted_strs l ->
+    li_walk (length l) l (snd (li_seek_lower_bound l t)) =
+    filter (fun s => match lex s t with Lt => false | _ => true end) l.
+Proof. exact lower_bound_walk_proof. Qed.
+Check lex_lower_bound_walk :
+  forall l t, sorted_strs l ->
+    li_walk (length l) l (snd (li_seek_lower_bound l t)) =
+    filter (fun s => match lex s t with Lt => false | _ => true end) l.
+Print Assumptions lex_lower_bound_walk.
+
+Theorem lex_upper_bound_walk :
+  forall l t, sorted_strs l ->
+    li_walk (length l) l (snd (li_seek_upper_bound l t)) =
+    filter (fun s => match lex s t with Gt => true | _ => false end) l.
+Proof. exact upper_bound_walk_proof. Qed.
+Check lex_upper_bound_walk :
+  forall l t, sorted_strs l ->
+    li_walk (length l) l (snd (li_seek_upper_bound l t)) =
+    filter (fun s => match lex s t with Gt => true | _ => false end) l.
+Print Assumptions lex_upper_bound_walk.
